@@ -914,3 +914,62 @@ def n5(ctx):
               'the abstract Mapping / Sequence tests they also satisfy',
               'AutoEntry tests %s before %s: a %s is a %s too and would get the generic entry class'
               % ((viol[0][1], viol[0][0], viol[0][0], viol[0][1]) if viol else ('', '', '', '')), mod.loc(fn))
+
+
+@rule('D4', floor=3, title='the Python-visible registry shows dict / defaultdict as the current mode of the asked namespace flattens them')
+def d4(ctx):
+    pkg = ctx.py()
+    mod = pkg.mod('optree.registry')
+    fn = mod.func('pytree_node_registry_get')
+    pos = [a.arg for a in fn.args.posonlyargs + fn.args.args + fn.args.kwonlyargs]
+    ctx.require(len(pos) >= 2, 'pytree_node_registry_get: parameters not recognised')
+    clsp, nsp = pos[0], pos[1]
+    cfg = pycfg(fn)
+    tests = [c for c in calls_under(fn) if (call_name(c) or '').endswith('is_dict_insertion_ordered')]
+    ctx.require(len(tests) >= 2, 'pytree_node_registry_get: %d mode tests, expected one per lookup form' % len(tests))
+    # (a) the mode asked about is the mode of the namespace asked about (the engine adds the
+    # inheritance from the global namespace itself)
+    foreign = [c for c in tests if not (len(c.args) == 1 and not c.keywords and is_name(c.args[0], nsp))]
+    ctx.check('registry.get/mode-of-the-asked-namespace', not foreign,
+              'every dict-order test in registry.get asks about the namespace parameter',
+              'registry.get tests the dict-order mode with `%s`, not with the namespace it was asked about: '
+              'the listing disagrees with what flattening in that namespace does'
+              % (src(foreign[0]) if foreign else ''), mod.loc(foreign[0]) if foreign else mod.loc(fn))
+    # (b) both lookup forms: every normal return that can hand out a dict / defaultdict entry is
+    # preceded by the mode test; on the mode's True edge both types get their insertion-ordered entry
+    rets = [r for r in walk(fn) if isinstance(r, ast.Return) and r.value is not None and
+            not (isinstance(r.value, ast.Constant) and r.value.value is None)]
+    tnodes = {cfg.ast_to_node.get(id(c)) for c in tests}
+    tnodes.discard(None)
+    unguarded = []
+    for r in rets:
+        rn = cfg.ast_to_node.get(id(r))
+        v = src(r.value)
+        # returns that are themselves the overlay, or the namespace-specific hit (dict and
+        # defaultdict cannot be registered in a namespace: G4 / the engine's built-in guard), are exempt
+        if 'INSERTION_ORDERED' in v:
+            continue
+        doms = [t for t in tnodes if cfg.dominates(t, rn)]
+        if not doms:
+            # exempt only if reached before any global lookup: the namespace-specific hit
+            g = [c for c in calls_under(fn) if pmatch(c, '_NODETYPE_REGISTRY.get((?n, ?c))', {'n': nsp, 'c': clsp}) is not None]
+            if g and cfg.dominates(cfg.ast_to_node.get(id(g[0])), rn) and \
+                    not any(cfg.dominates(cfg.ast_to_node.get(id(c2)), rn) for c2 in calls_under(fn)
+                            if pmatch(c2, '_NODETYPE_REGISTRY.get(?c)', {'c': clsp}) is not None):
+                continue
+            unguarded.append(r)
+    ctx.check('registry.get/mode-test-before-every-answer', not unguarded,
+              'registry.get consults the mode before every answer that could be the sorted dict / defaultdict entry',
+              'registry.get can return `%s` without having consulted the dict-order mode'
+              % (src(unguarded[0].value) if unguarded else ''), mod.loc(unguarded[0]) if unguarded else mod.loc(fn))
+    kinds = {}
+    for n in walk(fn):
+        if isinstance(n, ast.Assign) and isinstance(n.targets[0], ast.Subscript) and 'INSERTION_ORDERED' in src(n.value):
+            kinds.setdefault('listing', set()).add(src(n.targets[0].slice))
+        if isinstance(n, ast.Return) and n.value is not None and 'INSERTION_ORDERED' in src(n.value):
+            kinds.setdefault('by-class', set()).add(src(n.value))
+    ok = kinds.get('listing') == {'dict', 'defaultdict'} and len(kinds.get('by-class', ())) == 2
+    ctx.check('registry.get/both-dict-types', ok,
+              'both lookup forms substitute the insertion-ordered entry for dict and for defaultdict',
+              'registry.get substitutes insertion-ordered entries for %s (listing) and %s (by class)'
+              % (sorted(kinds.get('listing', ())), sorted(kinds.get('by-class', ()))), mod.loc(fn))
